@@ -20,6 +20,7 @@ import PgVerif.Proofs.ExtraSearch
 import PgVerif.Proofs.ExtraToast
 import PgVerif.Proofs.ExtraBlock
 import PgVerif.Props.C10.Entry
+import PgVerif.Props.C10.Control
 namespace PgVerif.Props.C10.Extra
 open PgVerif PgVerif.Model PgVerif.Model.Extra PgVerif.Proofs.Extra PgVerif.Props.C10.Cluster PgVerif.Props.C11
 
@@ -137,6 +138,26 @@ theorem C10_total_summaryMarshalJSON (s : SummaryResult) : ∃ r : Bytes, summar
 /-- RemoteClient.Credentials returns for every reader. -/
 theorem C10_total_rcCredentials (fs : RemoteReader) : ∃ r, rcCredentials fs = .ok r :=
   rcCredentials_total fs
+
+/-! ## one-line wrappers: ScanAllDeletedRows, ExtractPasswords, RemoteClient.Control -/
+
+/-- ScanAllDeletedRows is DumpDataDir (same value, same faults), hence returns for every tree. -/
+theorem C10_total_scanAllDeletedRows (rr : RowReader) (h : TotalReader rr) (π : MapOrder TableInfo)
+    (fs : Bytes → Option Bytes) (o : Spec.Options) :
+    scanAllDeletedRows rr π fs o = dumpDataDir rr π fs o ∧ ∃ r, scanAllDeletedRows rr π fs o = .ok r :=
+  ⟨rfl, C10_total_dumpDataDir rr h π fs o⟩
+
+/-- ExtractPasswords is ExtractPasswordsFromFiles over the directory's files, and returns for every tree. -/
+theorem C10_total_extractPasswords (fs : Bytes → Option Bytes) :
+    extractPasswords fs = Model.extractPasswordsFromFiles fs ∧ ∃ r, extractPasswords fs = .ok r :=
+  ⟨rfl, Rows.C10_total_extractPasswordsFromFiles fs⟩
+
+/-- RemoteClient.Control returns for every reader (pg_control missing, short, or arbitrary bytes). -/
+theorem C10_total_rcControl (fs : RemoteReader) : ∃ r, rcControl fs = .ok r := by
+  unfold rcControl
+  cases fs (strBytes "global/pg_control") with
+  | none => exact ⟨_, rfl⟩
+  | some d => exact Control.C10_total_parseControlFile d
 
 /-! ## remote.go: the methods with the cache threaded through
 
